@@ -85,7 +85,8 @@ Lemma link_req_stateless cs (SL : stateless cs) a b c k inp t :
   LenInv cs a -> LenInv cs b -> nth_error (c_inputs (getc cs c)) k = Some inp ->
   link_req cs a c k inp t = link_req cs b c k inp t.
 Proof.
-  intros La Lb Hk. unfold link_req. apply sched_walk_stateless; [exact (SL c k inp Hk)|exact (La c k inp Hk)|exact (Lb c k inp Hk)].
+  intros La Lb Hk. unfold link_req, link_dep. destruct (is_static_src cs (i_src inp)); [reflexivity|].
+  apply sched_walk_stateless; [exact (SL c k inp Hk)|exact (La c k inp Hk)|exact (Lb c k inp Hk)].
 Qed.
 
 (** served is monotone in the source times (for stateless links) *)
@@ -175,7 +176,8 @@ Lemma pull_input_cnt cs fuel : forall s c k x t a s2 a2 e2,
   pull_input fuel cs s c k x t a = (s2, a2, e2) -> s_cnt s2 = s_cnt s.
 Proof.
   induction fuel as [|fuel IH]; intros s c k x t a s2 a2 e2 H; simpl in H; [inversion H; reflexivity|].
-  destruct (pull_chain _ _ _ _ _) as [[r b] ss']. destruct b; [inversion H; reflexivity|].
+  destruct (pull_chain _ _ _ _ _) as [[r b] ss']. destruct (is_static_src cs (i_src x)); [inversion H; reflexivity|].
+  destruct b; [inversion H; reflexivity|].
   destruct (is_time cs (fst (i_src x))); [inversion H; reflexivity|].
   apply pull_list_cnt in H; [exact H|]. intros k1 x1 s1 a1 s3 a3 e3 R. eapply IH; eauto.
 Qed.
